@@ -42,6 +42,10 @@ type recDB struct {
 	bks    map[db.BucketID]*recBucket
 	writes int // Set/Delete calls that came through the db.Bucket interface
 	failAt int // > 0: the Set number failAt (and every later one) fails — an interrupted Flush
+
+	attempts int          // Set calls so far, failed ones included
+	failSet  map[int]bool // Set calls (by ordinal) that fail ONCE: a transient write error
+	faults   int          // transient failures that have fired
 }
 
 type recBucket struct {
@@ -72,6 +76,12 @@ func (d *recDB) bucket(id db.BucketID) *recBucket {
 func (b *recBucket) Get(k []byte) ([]byte, error) { return b.real.Get(k) }
 func (b *recBucket) Has(k []byte) (bool, error)   { return b.real.Has(k) }
 func (b *recBucket) Set(k, v []byte) error {
+	b.d.attempts++
+	if b.d.failSet[b.d.attempts] {
+		delete(b.d.failSet, b.d.attempts)
+		b.d.faults++
+		return fmt.Errorf("c20: simulated transient write failure")
+	}
 	if b.d.failAt > 0 && b.d.writes+1 >= b.d.failAt {
 		return fmt.Errorf("c20: simulated write failure")
 	}
@@ -581,8 +591,8 @@ type runInput struct {
 }
 
 type runStats struct {
-	accepted, ignoredForged, ignoredGenuine, dups, noHasher, multiReq, sweeps, deliveries int
-	completed                                                                             bool
+	accepted, ignoredForged, ignoredGenuine, dups, noHasher, multiReq, sweeps, deliveries, faults int
+	completed                                                                                     bool
 }
 
 type runner struct {
@@ -591,6 +601,7 @@ type runner struct {
 	src *source
 
 	objMode, raw, spMode bool
+	flushFault           bool // the first Flush(true) meets one transient write error and is repeated
 
 	target  *recDB
 	builder merkle.Builder
@@ -639,6 +650,7 @@ const (
 	opCount
 	opSweep
 	opEnd
+	opFail
 )
 
 type reqSnap struct {
@@ -793,6 +805,7 @@ func (rn *runner) deliver(p int, bid db.BucketID, kind string) {
 			pend, isPending = q.bks, true
 		}
 	}
+	faultsB, writesB := rn.target.faults, rn.target.writes
 	var err error
 	if perr := hxlib.Catch(func() { err = rn.builder.OnData(bid, d) }); perr != "" {
 		rn.failf("OnData panicked on a %s payload: %s", kind, perr)
@@ -812,6 +825,42 @@ func (rn *runner) deliver(p int, bid db.BucketID, kind string) {
 				rn.failf("(%d,%x) was stored although it was never requested", bk, w.hbytes[h])
 			}
 		}
+	}
+	if rn.target.faults > faultsB {
+		// a database write inside this OnData failed (transient): the delivery must fail
+		// visibly and the request must stay outstanding, so that the node is asked for again
+		i := rn.target.writes - writesB
+		rn.st.faults++
+		if err == nil || err == merkle.ErrNoRequester || err == merkle.ErrNoHasher {
+			rn.failf("a failing database write was not reported: OnData returned %v", err)
+		}
+		found := false
+		for _, q := range after {
+			if bytes.Equal(q.key, w.hbytes[h]) {
+				found = true
+				for _, b := range pend {
+					ok := false
+					for _, b2 := range q.bks {
+						ok = ok || b == b2
+					}
+					if !ok {
+						rn.failf("after a failed write the request %x no longer carries bucket %q", q.key, b)
+					}
+				}
+			}
+		}
+		if !found {
+			rn.failf("the request %x is no longer outstanding although storing its data failed (OnData returned: %v)", w.hbytes[h], err)
+		}
+		if res != resB || un < unB {
+			rn.failf("a failed delivery changed the counts: resolved %d -> %d, unresolved %d -> %d", resB, res, unB, un)
+		}
+		if i == 0 && (newk != 0 || !sameReqs(before, after)) {
+			rn.failf("a delivery whose first write failed changed the builder")
+		}
+		rn.emit(opFail, p, i, un, res, newk)
+		rn.checkDoneComplete("after a failed OnData")
+		return
 	}
 	if bid.Hasher() == nil {
 		rn.st.noHasher++
@@ -992,6 +1041,25 @@ func (rn *runner) sweep(where string) {
 
 func (rn *runner) flush() {
 	rn.step++
+	if rn.flushFault && !rn.flushed && !rn.raw {
+		// one transient write error inside Flush(true): it must be reported, and repeating the
+		// flush must write everything
+		rn.flushFault = false
+		n := len(rn.present) - len(rn.preload)
+		if n > 0 {
+			at := rn.target.attempts + 1 + rn.r.Intn(n)
+			rn.target.failSet[at] = true
+			fb := rn.target.faults
+			err := rn.builder.Flush(true)
+			delete(rn.target.failSet, at)
+			if rn.target.faults > fb {
+				rn.st.faults++
+				if err == nil {
+					rn.failf("a failing database write inside Flush(true) was not reported")
+				}
+			}
+		}
+	}
 	if err := rn.builder.Flush(true); err != nil {
 		rn.failf("Flush(true) failed: %v", err)
 	}
@@ -1133,7 +1201,7 @@ func runOne(seed int64, noCoq bool) (coq, kind, desc, oracle string, st runStats
 	r := rand.New(rand.NewSource(seed))
 	objMode := r.Intn(4) != 0
 	spMode := r.Intn(4) == 0
-	raw := r.Intn(8) == 0
+	raw := r.Intn(5) == 0
 	nEntries := 20 + r.Intn(181)
 	if r.Intn(12) == 0 {
 		nEntries = 1 + r.Intn(4)
@@ -1143,7 +1211,9 @@ func runOne(seed int64, noCoq bool) (coq, kind, desc, oracle string, st runStats
 	secondRoot := withOld && !preloadOld    // ... or it is synced as a second root later
 	directReq := objMode && r.Intn(5) == 0  // an AddRequest for one BytesByHash datum
 	midFlush := !raw && r.Intn(6) == 0
-	order := r.Intn(3) // 0 front-biased, 1 uniform, 2 back-biased
+	order := r.Intn(3)                         // 0 front-biased, 1 uniform, 2 back-biased
+	faulty := raw && !spMode && r.Intn(4) != 0 // transient write errors of the target inside OnData
+	flushFault := !raw && r.Intn(4) == 0       // one transient write error inside the first Flush(true)
 
 	w := newWorld(objMode)
 	src := &source{objMode: objMode, d: newRecDB(), tries: map[string]*srcTrie{}, datas: map[string][]byte{}}
@@ -1176,7 +1246,8 @@ func runOne(seed int64, noCoq bool) (coq, kind, desc, oracle string, st runStats
 
 	rn := &runner{r: r, w: w, src: src, objMode: objMode, raw: raw, spMode: spMode, target: newRecDB(),
 		closure: map[ref]int{}, preload: map[ref]int{}, present: map[ref]int{}, requested: map[ref]bool{},
-		delivered: map[int]bool{}, noCoq: noCoq}
+		delivered: map[int]bool{}, noCoq: noCoq, flushFault: flushFault}
+	rn.target.failSet = map[int]bool{}
 
 	if preloadOld {
 		// the target is the product of a COMPLETE earlier sync of the older version (a real
@@ -1225,6 +1296,11 @@ func runOne(seed int64, noCoq bool) (coq, kind, desc, oracle string, st runStats
 	rn.start(ref{0, w.hid(mainT.root)}, false)
 
 	srcN := len(genuine)
+	if faulty {
+		for k := 1 + r.Intn(4); k > 0; k-- {
+			rn.target.failSet[rn.target.attempts+1+r.Intn(srcN+3)] = true
+		}
+	}
 	budget := 60*srcN + 400
 	startSecondAt, directAt, flushAt := -1, -1, -1
 	if secondRoot {
@@ -1348,12 +1424,12 @@ func runOne(seed int64, noCoq bool) (coq, kind, desc, oracle string, st runStats
 	for _, f := range []struct {
 		on bool
 		s  string
-	}{{raw, "raw"}, {preloadOld, "preloaded"}, {secondRoot, "two-roots"}, {directReq, "addrequest"}, {midFlush, "midflush"}} {
+	}{{raw, "raw"}, {faulty, "write-faults"}, {flushFault, "flush-fault"}, {preloadOld, "preloaded"}, {secondRoot, "two-roots"}, {directReq, "addrequest"}, {midFlush, "midflush"}} {
 		if f.on {
 			flags = append(flags, f.s)
 		}
 	}
-	desc = fmt.Sprintf("%s entries=%d source-nodes=%d %s deliveries=%d accepted=%d", kind, nEntries, srcN, strings.Join(flags, ","), rn.st.deliveries, rn.st.accepted)
+	desc = fmt.Sprintf("%s entries=%d source-nodes=%d %s deliveries=%d accepted=%d faults=%d", kind, nEntries, srcN, strings.Join(flags, ","), rn.st.deliveries, rn.st.accepted, rn.st.faults)
 	if !noCoq {
 		stream := []int{len(w.pbytes)}
 		for p := range w.pbytes {
